@@ -95,8 +95,10 @@ def gen_op(rng, h, acfg):
 
 def run(ctx):
     ad = Adapter()
-    libs = ["a.dll", "A", "b.so", "c"]
-    funcs = ["f", "g", "#1", "#2"]
+    # names chosen so that canonical function names (stem + "_" + function) can coincide for
+    # distinct (library, function) pairs, and so that several spellings denote one library
+    libs = ["foo.dll", "FOO", "foo_bar.dll", "foo.drv"]
+    funcs = ["bar_baz", "baz", "#1", "f"]
     depth = 5 if ctx.quick else 7
     sm.gen_replay(ctx, "LibImp", consts(libs, funcs), depth, ad, invariants=INV, properties=PROPS)
     # design-level: scaled-down strides so that TLC itself crosses the end of a library area
@@ -116,6 +118,18 @@ def run(ctx):
     bf = ["fn%d" % i for i in range(300)] + ["#%d" % i for i in range(1, 40)]
     ntr = 4 if ctx.quick else 24
     traces = sm.record_traces(ad, {"libs": bl, "funcs": bf}, gen_op, ntr, 900, ctx.rng)
+    # scripted histories: one library is filled past one area, a second library is created and used,
+    # then the first one is filled past further areas (needs > 512 functions)
+    for first, second in ((bl[0], bl[1]), (bl[3], bl[2])):
+        script = [{"op": "GetBase", "n": first}]
+        script += [{"op": "GetFunc", "n": first, "f": "fn%d" % i} for i in range(300)]
+        script += [{"op": "GetBase", "n": second}, {"op": "GetFunc", "n": second, "f": "fn0"}]
+        script += [{"op": "GetFunc", "n": first, "f": "g%d" % i} for i in range(300)]
+        script += [{"op": "GetFunc", "n": second, "f": "fn1"}, {"op": "GetFunc", "n": first, "f": "fn7"}]
+        it = iter(script)
+        traces += sm.record_traces(ad, {"libs": bl, "funcs": bf}, lambda rng, h, acfg: next(it, None), 1,
+                                   len(script), ctx.rng)
+    bf = bf + ["g%d" % i for i in range(300)]
     c = consts(bl, bf)
     for t in traces:
         for i, e in enumerate(t):
